@@ -66,6 +66,21 @@ def _chain_text(node):
     return None
 
 
+def _is_alias(node):
+    """A Name / Attribute / Subscript chain whose subscripts are constants or plain names: it denotes an existing object."""
+    if _chain_text(node) is None:
+        return False
+    cur = node
+    while isinstance(cur, (ast.Attribute, ast.Subscript)):
+        if isinstance(cur, ast.Subscript):
+            sl = cur.slice
+            parts = sl.elts if isinstance(sl, ast.Tuple) else [sl]
+            if not all(isinstance(p, (ast.Constant, ast.Name)) for p in parts):
+                return False
+        cur = cur.value
+    return True
+
+
 def _prefixes(node):
     """All chain prefixes of a chain expression, outermost first (the node itself included)."""
     out = []
@@ -125,7 +140,7 @@ def _reads(expr):
             bound |= {t.id for t in ast.walk(n.target) if isinstance(t, ast.Name)}
     names -= bound
     identity, content = set(), set()
-    if _chain_text(expr) is not None:
+    if _is_alias(expr):
         identity |= set(_prefixes(expr)[1:])        # strict prefixes: `molecule.nodes`, `molecule` for `molecule.nodes[idx]`
     else:
         for n in ast.walk(expr):
@@ -141,7 +156,7 @@ def _stable(expr, between, own_names=(), ignore=()):
     strict prefix is replaced / mutated through a mutator method; writing *into* the aliased object (`molecule.nodes[idx]['k'] = v`) does
     not matter.  A computed value (`len(x)`, `d.get(k, 0)`, `s.endswith('t')`) changes when anything it reads is stored into or mutated."""
     names, identity, content = _reads(expr)
-    alias_text = ast.unparse(expr) if _chain_text(expr) is not None else None
+    alias_text = ast.unparse(expr) if _is_alias(expr) else None
     for st in between:
         for n in ast.walk(st):
             if isinstance(n, ast.Name) and isinstance(n.ctx, (ast.Store, ast.Del)) and n.id in names:
@@ -453,6 +468,14 @@ def _unhoist_locals(fn, pinned_locals, params):
                         continue
                     if tuple_target and _chain_text(expr) is None:
                         continue
+                    fresh = isinstance(expr, (ast.Dict, ast.List, ast.Set, ast.ListComp, ast.SetComp, ast.DictComp, ast.GeneratorExp)) or \
+                        (isinstance(expr, ast.Call) and (expr.func.attr if isinstance(expr.func, ast.Attribute) else getattr(expr.func, 'id', None)) in FRESH_CALLS)
+                    if not _is_alias(expr) and (any(_mutated_through(fn, n) for n in names) or (fresh and len(all_uses) > 1)):
+                        # the name holds an object of its own (a container being filled, a generator consumed once): not just a name for an expression
+                        continue
+                    if not isinstance(expr, (ast.Lambda, ast.Constant)) and any(
+                            isinstance(sc, (ast.Lambda,) + FUNC_TYPES) and sc is not fn and any(_contains(sc, use) for use in all_uses) for sc in ast.walk(fn)):
+                        continue            # used inside a closure: evaluated whenever that is called, not here
                     if isinstance(expr, ast.Lambda):
                         ok = True
                     elif _pure(expr):
@@ -482,6 +505,30 @@ def _unhoist_locals(fn, pinned_locals, params):
                     progress = True
                     break
     return done
+
+
+FRESH_CALLS = {'dict', 'list', 'set', 'sorted', 'defaultdict', 'OrderedDict', 'Counter', 'deque', 'copy', 'deepcopy', 'split', 'splitlines', 'iter', 'zip', 'enumerate',
+               'map', 'filter', 'reversed', 'items', 'keys', 'values', 'array', 'zeros', 'ones', 'bytearray'}
+
+
+def _mutated_through(fn, name):
+    """The object the name holds is written into through that name (`n[k] = v`, `n.attr = v`, `del n[k]`, `n.append(..)`, `n += ..`)."""
+    for n in ast.walk(fn):
+        if isinstance(n, (ast.Subscript, ast.Attribute)) and isinstance(n.ctx, (ast.Store, ast.Del)):
+            cur = n
+            while isinstance(cur, (ast.Subscript, ast.Attribute)):
+                cur = cur.value
+            if isinstance(cur, ast.Name) and cur.id == name:
+                return True
+        if isinstance(n, ast.Call) and isinstance(n.func, ast.Attribute) and n.func.attr in MUTATORS:
+            cur = n.func.value
+            while isinstance(cur, (ast.Subscript, ast.Attribute)):
+                cur = cur.value
+            if isinstance(cur, ast.Name) and cur.id == name:
+                return True
+        if isinstance(n, ast.AugAssign) and isinstance(n.target, ast.Name) and n.target.id == name:
+            return True
+    return False
 
 
 def _first_evaluated(stmt, use):
@@ -686,3 +733,56 @@ def normalise_module(module):
         ast.fix_missing_locations(module.tree)
         module.reindex()
     return applied
+
+
+# ----------------------------------------------------------------------------------------------------------------- self check
+_MUST_KEEP = [
+    ('length read before the list grows', 'n', 'def f(x):\n    n = len(x)\n    x.append(1)\n    return n\n'),
+    ('container being filled', 'cache', 'def f(k, v):\n    cache = {}\n    cache[k] = v\n    return cache[k]\n'),
+    ('list being filled, used once', 'out', 'def f(k):\n    out = []\n    out.append(k)\n    return out\n'),
+    ('alias of a node that is then removed', 'node', 'def f(g, i):\n    node = g.nodes[i]\n    g.remove_node(i)\n    return node\n'),
+    ('generator consumed twice', 'it', 'def f(b):\n    it = (a for a in b)\n    first = list(it)\n    second = list(it)\n    return first, second\n'),
+    ('lookup before the slot is overwritten', 'v', 'def f(d, k):\n    v = d.get(k, 0)\n    d[k] = 5\n    return v\n'),
+    ('attribute read before it is replaced', 'name', 'def f(obj):\n    name = obj.name\n    obj.name = "x"\n    return name\n'),
+    ('element read before the sequence name is rebound', 'first', 'def f(seq, other):\n    first = seq[0]\n    seq = other\n    return first, seq\n'),
+    ('slot read before the container item is replaced', 'row', 'def f(m, i, j):\n    row = m.rows[i]\n    m.rows[j] = None\n    return row\n'),
+    ('value captured for a closure', 'n', 'def f(xs):\n    n = len(xs)\n    g = lambda: n\n    xs.append(0)\n    return g\n'),
+    ('use not dominated by the binding', 't', 'def f(c, a):\n    if c:\n        t = a.b\n    return t if c else None\n'),
+    ('call with an effect moved past another statement', 'r', 'def f(a, log):\n    r = a.compute()\n    log.write("x")\n    return r\n'),
+    ('two-armed choice then mutated test', 'v', 'def f(d, k):\n    if k in d:\n        v = d[k]\n    else:\n        v = 0\n    d[k] = 1\n    return v\n'),
+]
+_MUST_REWRITE = [
+    ('loop-invariant lookup', 'def f(node, keys):\n    w = node.get("w", {})\n    return [w.get(k, 1) for k in keys]\n', 'def f(node, keys):\n    return [node.get("w", {}).get(k, 1) for k in keys]\n'),
+    ('tuple unpacking of a name', 'def f(pair):\n    a, b = pair\n    return a - b\n', 'def f(pair):\n    return pair[0] - pair[1]\n'),
+    ('named key function', 'def f(xs):\n    def key(x):\n        return x[0]\n    return sorted(xs, key=key)\n', 'def f(xs):\n    return sorted(xs, key=lambda x: x[0])\n'),
+    ('membership test instead of get', 'def f(m, k, out):\n    if k in m:\n        v = m[k]\n    else:\n        v = 0\n    out.append(v)\n', 'def f(m, k, out):\n    out.append(m.get(k, 0))\n'),
+    ('items loop', 'def f(d, out):\n    for k, v in d.items():\n        out[k] = v\n', 'def f(d, out):\n    for k in d:\n        out[k] = d[k]\n'),
+    ('alias written through', 'def f(g, i):\n    node = g.nodes[i]\n    node["seen"] = True\n    return node.get("x")\n', 'def f(g, i):\n    g.nodes[i]["seen"] = True\n    return g.nodes[i].get("x")\n'),
+    ('star call', 'def f(m):\n    r, c = idx(m)\n    for a, b in zip(r, c):\n        use(a, b)\n', 'def f(m):\n    for a, b in zip(*idx(m)):\n        use(a, b)\n'),
+]
+
+
+def self_check():
+    """The normaliser must leave alone every binding whose removal could change behaviour, and must undo the plain spellings: run on fixed
+    snippets (all locals count as new).  Returns the list of failures (empty when sound on the samples)."""
+    problems = []
+
+    def normal(src):
+        tree = ast.parse(src)
+        fn = tree.body[0]
+        params = _params_of(fn)
+        _defs_to_lambdas(fn, {})
+        _conditional_assignments(fn, {}, params)
+        _items_loops(fn, {}, params)
+        _unhoist_locals(fn, {}, params)
+        return ast.unparse(ast.fix_missing_locations(tree)).strip()
+    for label, name, src in _MUST_KEEP:
+        got = normal(src)
+        kept = {n.id for n in ast.walk(ast.parse(got)) if isinstance(n, ast.Name) and isinstance(n.ctx, ast.Store)}
+        if name not in kept:
+            problems.append('must-keep `{}`: the binding of `{}` was substituted away: {!r}'.format(label, name, got))
+    for label, src, want in _MUST_REWRITE:
+        got = normal(src)
+        if got != ast.unparse(ast.parse(want)).strip():
+            problems.append('must-rewrite `{}`: got {!r}'.format(label, got))
+    return problems
